@@ -2941,6 +2941,41 @@ func specStoreSame(pConn *PFCPConn) bool {
 	})
 }
 
+// C14, delivery: every end marker of the list handed to the datapath goes onto the datapath's queue
+// exactly once and in order (ghost log "send": channel, backing array and length of the packet), and
+// the BESS send loop writes every packet it takes from the queue (ghost log "recv") to the end-marker
+// socket with exactly one Write of exactly that packet (ghost log "sockwrite": one record each - the
+// socket is SOCK_SEQPACKET, so a Write is a packet).
+func specQueued(e int, ch chan []byte, pkt []byte) bool {
+	return gfield("send.chan", e) == uint64(chanRef(ch)) && gfield("send.ref", e) == uint64(sliceRef(pkt)) && gfield("send.len", e) == uint64(len(pkt))
+}
+
+//@ func (b *bess) SendEndMarkers(endMarkerList *[][]byte) (err error)
+//@   requires b != nil && endMarkerList != nil
+//@   ensures C14.bess.queue.count: err == nil && glen("send") == old[int](glen("send"))+len(*endMarkerList)
+//@   ensures C14.bess.queue.each: forall k int :: 0 <= k && k < len(*endMarkerList) ==> specQueued(gentry("send", old[int](glen("send"))+k), b.endMarkerChan, at(*endMarkerList, lo(*endMarkerList)+k))
+//@   loop 1 invariant C14.bess.queue.l1: glen("send") == old[int](glen("send"))+rangeidx+1 && (forall k int :: 0 <= k && k < rangeidx+1 ==> specQueued(gentry("send", old[int](glen("send"))+k), b.endMarkerChan, at(*endMarkerList, lo(*endMarkerList)+k)))
+
+//@ func (up4 *UP4) SendEndMarkers(endMarkerList *[][]byte) (err error)
+//@   requires up4 != nil && endMarkerList != nil
+//@   ensures C14.up4.queue.count: err == nil && glen("send") == old[int](glen("send"))+len(*endMarkerList)
+//@   ensures C14.up4.queue.each: forall k int :: 0 <= k && k < len(*endMarkerList) ==> specQueued(gentry("send", old[int](glen("send"))+k), up4.endMarkerChan, at(*endMarkerList, lo(*endMarkerList)+k))
+//@   loop 1 invariant C14.up4.queue.l1: glen("send") == old[int](glen("send"))+rangeidx+1 && (forall k int :: 0 <= k && k < rangeidx+1 ==> specQueued(gentry("send", old[int](glen("send"))+k), up4.endMarkerChan, at(*endMarkerList, lo(*endMarkerList)+k)))
+
+// specWrittenAsTaken: the m-th packet this call took from the queue is the m-th record it wrote.
+func specWrittenAsTaken(r0 int, w0 int, m int, sock int) bool {
+	return gfield("sockwrite.conn", gentry("sockwrite", w0+m)) == uint64(sock) &&
+		gfield("sockwrite.data", gentry("sockwrite", w0+m)) == gfield("recv.ref", gentry("recv", r0+m)) &&
+		gfield("sockwrite.len", gentry("sockwrite", w0+m)) == gfield("recv.len", gentry("recv", r0+m))
+}
+
+//@ func (b *bess) endMarkerSendLoop(endMarkerChan chan []byte)
+//@   requires b != nil && b.endMarkerSocket != nil
+//@   ensures C14.bess.loop.count: glen("sockwrite")-old[int](glen("sockwrite")) == glen("recv")-old[int](glen("recv"))
+//@   ensures C14.bess.loop.each: forall m int :: 0 <= m && m < glen("recv")-old[int](glen("recv")) ==> specWrittenAsTaken(old[int](glen("recv")), old[int](glen("sockwrite")), m, dynRef(b.endMarkerSocket))
+//@   loop 1 invariant C14.bess.loop.l1.count: glen("sockwrite")-old[int](glen("sockwrite")) == glen("recv")-old[int](glen("recv")) && glen("recv") >= old[int](glen("recv")) && b.endMarkerSocket != nil
+//@   loop 1 invariant C14.bess.loop.l1.each: forall m int :: 0 <= m && m < glen("recv")-old[int](glen("recv")) ==> specWrittenAsTaken(old[int](glen("recv")), old[int](glen("sockwrite")), m, dynRef(b.endMarkerSocket))
+
 //@ func (d datapath) SendEndMarkers(endMarkerList *[][]byte) (err error)
 //@   trusted
 //@   pure
